@@ -127,6 +127,59 @@ def ts_eq(a, b):
     return True if a.t == b.t else None
 
 
+class TSMatch:
+    """Result of re.match on a token string: groups = tuple of TS (None for a group that did not take part)."""
+    def __init__(self, groups):
+        self.groups = groups
+
+    def __repr__(self):
+        return 'Match%r' % (self.groups,)
+
+
+_REPS = {'width': ('7', '73'), 'precision': ('4', '40'), 'digit': ('5', '6'), 'nonzero-digit': ('7', '8'), 'fill': ('\x00', '\x01')}
+
+
+def ts_re_match(pattern, ts, full=False):
+    """re.match(pattern, ts) for a literal pattern: decided on two representative texts of the token string (opaque tokens spelled
+    with one and with two characters / two different characters); both must match with group boundaries on the same token
+    boundaries, otherwise the result depends on the digits and the interpreter gives up."""
+    outcomes = []
+    for variant in (0, 1):
+        text, bounds = '', [0]
+        for x in ts.t:
+            if isinstance(x, str):
+                rep = x
+            else:
+                if x.name not in _REPS:
+                    raise GiveUp('re.match on a token string with the opaque token %s' % x.name)
+                rep = _REPS[x.name][variant]
+            text += rep
+            bounds.append(len(text))
+        m = (re.fullmatch if full else re.match)(pattern, text)
+        if m is None:
+            outcomes.append(None)
+            continue
+        gs = []
+        for gi in range(1, m.re.groups + 1):
+            a, b = m.span(gi)
+            if a == -1:
+                gs.append(None)
+            elif a in bounds and b in bounds:
+                ia = bounds.index(a)
+                ib = len(bounds) - 1 - bounds[::-1].index(b)
+                if a == b:
+                    ib = ia
+                gs.append((ia, ib))
+            else:
+                raise GiveUp('re.match(%r): a group boundary falls inside an opaque token of %s' % (pattern, ts.show()))
+        outcomes.append(tuple(gs))
+    if outcomes[0] != outcomes[1]:
+        raise GiveUp('re.match(%r) on %s depends on the value of the digits' % (pattern, ts.show()))
+    if outcomes[0] is None:
+        return None
+    return TSMatch(tuple(None if g is None else TS(ts.t[g[0]:g[1]]) for g in outcomes[0]))
+
+
 def ts_contains(hay, needle):
     """Three-valued `needle in hay` (substring test of Python) for token strings."""
     if len(needle.t) == 0:
@@ -439,9 +492,23 @@ class Interp:
         name = f.attr if isinstance(f, ast.Attribute) else f.id if isinstance(f, ast.Name) else None
         # ----- methods of token strings
         if isinstance(f, ast.Attribute):
+            # ----- re.match / re.fullmatch on a token string, and the methods of the match
+            if isinstance(f.value, ast.Name) and f.value.id == 're' and name in ('match', 'fullmatch') and len(n.args) == 2 and not n.keywords:
+                pat, subj = self.ev(n.args[0], st), self.ev(n.args[1], st)
+                if isinstance(pat, TS) and pat.literal and isinstance(subj, TS):
+                    return ts_re_match(pat.text(), subj, full=(name == 'fullmatch'))
+                return UNKNOWN
             recv = self.ev(f.value, st)
             args = [self.ev(a, st) for a in n.args]
             kw = {k.arg: self.ev(k.value, st) for k in n.keywords if k.arg}
+            if isinstance(recv, TSMatch):
+                if name == 'groups' and not args:
+                    return recv.groups
+                if name == 'group' and len(args) == 1 and isinstance(args[0], int) and 1 <= args[0] <= len(recv.groups):
+                    return recv.groups[args[0] - 1]
+                return UNKNOWN
+            if recv is None and name in ('groups', 'group'):
+                raise _Raise('AttributeError')
             if isinstance(recv, TS):
                 return self.str_method(recv, name, args)
             if name is not None and name.endswith(self.node_suffix):
